@@ -1,6 +1,7 @@
 //! C08 (implementation-side search): total and allocation free on display-scale inputs.
 //!   p_total <zoo case...>      every query and draw of one drawable: no panic, no allocation, bounded steps
-//! Panics are caught here and reported with the input class so that known findings can be told apart.
+//!   ok_<fn> <args...>          correspondence with coq/Model/Overflow.v: did the real function panic (overflow checks and
+//!                              debug assertions are on in this profile)?  prints OK / PANIC, the model prints f_ok.
 use crate::util::*;
 use crate::zoo::*;
 use embedded_graphics::{pixelcolor::Rgb565, prelude::*, primitives::Rectangle, Pixel};
@@ -129,24 +130,10 @@ fn count_pixels(z: &Zoo) -> u64 {
     }
 }
 
-/// Input classes of the recorded findings (known_findings.txt): decided from the INPUT, so that a
-/// panic on an input outside every class is always reported as a new violation.
-fn input_class(z: &Zoo) -> Option<&'static str> {
-    let w = z.style.stroke_width as i64;
-    let len2 = |a: Point, b: Point| {
-        let d = b - a;
-        (d.x as i64).pow(2) + (d.y as i64).pow(2)
-    };
-    let thick_over = |a: Point, b: Point| w >= 2 && (2 * w).pow(2) * len2(a, b).max(1) > i32::MAX as i64;
-    match &z.geo {
-        Geo::Line(l) if thick_over(l.start, l.end) => Some("K08_thick_threshold"),
-        Geo::Tri(t) if w >= 2 => Some("K08_thick_join"),
-        Geo::Poly(_, v) if w >= 2 && v.len() >= 2 => Some("K08_thick_join"),
-        _ => None,
-    }
-}
-
 pub fn run(suite: &str, a: &[&str]) -> Option<String> {
+    if suite.starts_with("ok_") {
+        return ok_suite(suite, a);
+    }
     if suite != "p_total" {
         return None;
     }
@@ -157,18 +144,166 @@ pub fn run(suite: &str, a: &[&str]) -> Option<String> {
     Some(match r {
         Ok(Ok(steps)) => {
             if after != before {
-                format!("FAIL class=K08_alloc {} heap allocations during library calls", after - before)
+                format!("FAIL alloc: {} heap allocations during library calls", after - before)
             } else {
                 format!("OK {}", steps)
             }
         }
-        Ok(Err(e)) => format!("FAIL class=K08_nontermination {}", e),
+        Ok(Err(e)) => format!("FAIL nontermination: {}", e),
         Err(_) => {
+            // every overflow defect known so far is repaired: a panic is always an unlisted violation
             let loc = LAST_PANIC.with(|p| p.borrow().clone());
-            match input_class(&z) {
-                Some(c) => format!("FAIL class={} panic at {}", c, loc),
-                None => format!("FAIL panic at {} (input in no recorded class)", loc),
-            }
+            let msg = LAST_PANIC_MSG.with(|p| p.borrow().clone());
+            format!("FAIL panic at {} ({})", loc, msg)
         }
     })
+}
+
+// ---- correspondence suites for the f_ok predicates of coq/Model/Overflow.v ----------------------
+fn verdict<R, F: FnOnce() -> R>(f: F) -> String {
+    match catch_unwind(AssertUnwindSafe(|| {
+        std::hint::black_box(f());
+    })) {
+        Ok(()) => "OK".into(),
+        Err(_) => "PANIC".into(),
+    }
+}
+
+fn ok_suite(suite: &str, a: &[&str]) -> Option<String> {
+    use embedded_graphics::geometry::{AnchorPoint, AnchorX, AnchorY};
+    use embedded_graphics::image::{ImageDrawable, ImageRaw};
+    use embedded_graphics::pixelcolor::*;
+    use embedded_graphics::primitives::*;
+    use embedded_graphics::text::LineHeight;
+    let axo = |s: &str| match s { "0" => AnchorX::Left, "1" => AnchorX::Center, _ => AnchorX::Right };
+    let ayo = |s: &str| match s { "0" => AnchorY::Top, "1" => AnchorY::Center, _ => AnchorY::Bottom };
+    Some(match suite {
+        "ok_point" => {
+            let (p, q) = (pt(a[1], a[2]), pt(a[3], a[4]));
+            let sz = Size::new(u(a[3]), u(a[4]));
+            match a[0] {
+                "add" => verdict(|| p + q),
+                "sub" => verdict(|| p - q),
+                "mul" => verdict(|| p * q.x),
+                "div" => verdict(|| p / q.x),
+                "neg" => verdict(|| -p),
+                "abs" => verdict(|| p.abs()),
+                "cmul" => verdict(|| p.component_mul(q)),
+                "cdiv" => verdict(|| p.component_div(q)),
+                "addsize" => verdict(|| p + sz),
+                "subsize" => verdict(|| p - sz),
+                "addassign" => verdict(|| { let mut r = p; r += q; r -= q; r }),
+                _ => return None,
+            }
+        }
+        "ok_size" => {
+            let (s1, s2) = (Size::new(u(a[1]), u(a[2])), Size::new(u(a[3]), u(a[4])));
+            match a[0] {
+                "add" => verdict(|| s1 + s2),
+                "sub" => verdict(|| s1 - s2),
+                "mul" => verdict(|| s1 * s2.width),
+                "div" => verdict(|| s1 / s2.width),
+                "cmul" => verdict(|| s1.component_mul(s2)),
+                "cdiv" => verdict(|| s1.component_div(s2)),
+                "sat" => verdict(|| (s1.saturating_add(s2), s1.saturating_sub(s2))),
+                _ => return None,
+            }
+        }
+        "ok_rect" => {
+            let r = rc(a[1], a[2], a[3], a[4]);
+            match a[0] {
+                "br" => verdict(|| r.bottom_right()),
+                "center" => verdict(|| r.center()),
+                "withcenter" => verdict(|| Rectangle::with_center(r.top_left, r.size)),
+                "corners" => verdict(|| Rectangle::with_corners(pt(a[1], a[2]), pt(a[3], a[4]))),
+                "contains" => verdict(|| r.contains(pt(a[5], a[6]))),
+                "inter" => verdict(|| r.intersection(&rc(a[5], a[6], a[7], a[8]))),
+                "envelope" => verdict(|| r.envelope(&rc(a[5], a[6], a[7], a[8]))),
+                "anchor" => verdict(|| r.anchor_point(AnchorPoint::from_xy(axo(a[5]), ayo(a[6])))),
+                "resized" => verdict(|| r.resized(Size::new(u(a[5]), u(a[6])), AnchorPoint::from_xy(axo(a[7]), ayo(a[8])))),
+                "offset" => verdict(|| r.offset(i(a[5]))),
+                "rows" => verdict(|| (r.rows(), r.columns())),
+                "styledbb" => {
+                    let st = PrimitiveStyleBuilder::<Rgb565>::new()
+                        .stroke_color(Rgb565::new(1, 2, 3))
+                        .stroke_width(u(a[5]))
+                        .stroke_alignment(match a[6] { "0" => StrokeAlignment::Inside, "1" => StrokeAlignment::Center, _ => StrokeAlignment::Outside })
+                        .build();
+                    verdict(|| r.into_styled(st).bounding_box())
+                }
+                _ => return None,
+            }
+        }
+        "ok_circle_contains" => verdict(|| Circle::new(pt(a[0], a[1]), u(a[2])).contains(pt(a[3], a[4]))),
+        "ok_ellipse_contains" => verdict(|| Ellipse::new(pt(a[0], a[1]), Size::new(u(a[2]), u(a[3]))).contains(pt(a[4], a[5]))),
+        "ok_confine" => {
+            let s = |k: usize| Size::new(u(a[k]), u(a[k + 1]));
+            let rr = RoundedRectangle::new(
+                Rectangle::new(Point::zero(), s(0)),
+                CornerRadii { top_left: s(2), top_right: s(4), bottom_right: s(6), bottom_left: s(8) },
+            );
+            verdict(|| rr.confine_radii())
+        }
+        "ok_line_points" => verdict(|| Line::new(pt(a[0], a[1]), pt(a[2], a[3])).points().take(100_000).count()),
+        "ok_line_misc" => {
+            let l = Line::new(pt(a[1], a[2]), pt(a[3], a[4]));
+            match a[0] {
+                "delta" => verdict(|| l.delta()),
+                "midpoint" => verdict(|| l.midpoint()),
+                _ => return None,
+            }
+        }
+        "ok_thick_new" => {
+            let l = Line::new(pt(a[0], a[1]), pt(a[2], a[3]));
+            let st = PrimitiveStyle::with_stroke(Rgb565::new(1, 2, 3), u(a[4]));
+            verdict(|| {
+                let _it = l.into_styled(st).pixels();
+            })
+        }
+        "ok_tri_contains" => verdict(|| Triangle::new(pt(a[0], a[1]), pt(a[2], a[3]), pt(a[4], a[5])).contains(pt(a[6], a[7]))),
+        "ok_line_height" => verdict(|| if a[0] == "1" { LineHeight::Percent(u(a[1])).to_absolute(u(a[2])) } else { LineHeight::Pixels(u(a[1])).to_absolute(u(a[2])) }),
+        "ok_image_new" => {
+            let sz = Size::new(u(a[0]), u(a[1]));
+            let data: [u8; 0] = [];
+            match a[2] {
+                "1" => verdict(|| ImageRaw::<BinaryColor>::new(&data, sz).is_ok()),
+                "2" => verdict(|| ImageRaw::<Gray2>::new(&data, sz).is_ok()),
+                "4" => verdict(|| ImageRaw::<Gray4>::new(&data, sz).is_ok()),
+                "8" => verdict(|| ImageRaw::<Gray8>::new(&data, sz).is_ok()),
+                "16" => verdict(|| ImageRaw::<Rgb565>::new(&data, sz).is_ok()),
+                "24" => verdict(|| ImageRaw::<Rgb888>::new(&data, sz).is_ok()),
+                _ => return None,
+            }
+        }
+        "ok_sub_image" => {
+            // 16 x 8 image, direct call of draw_sub_image with an arbitrary area (SubImage would clip it first)
+            let area = rc(a[1], a[2], a[3], a[4]);
+            let mut t = NullTarget { bb: Rectangle::new(Point::zero(), Size::new(64, 64)), n: 0, sum: 0 };
+            static D: [u8; 256] = [0x5a; 256];
+            match a[0] {
+                "1" => { let im = ImageRaw::<BinaryColor>::new(&D[..16], Size::new(16, 8)).unwrap(); verdict(|| { let mut t1 = NullBin(0); im.draw_sub_image(&mut t1, &area).unwrap() }) }
+                "16" => { let im = ImageRaw::<Rgb565>::new(&D[..256], Size::new(16, 8)).unwrap(); verdict(|| im.draw_sub_image(&mut t, &area).unwrap()) }
+                _ => return None,
+            }
+        }
+        _ => return None,
+    })
+}
+
+/// minimal BinaryColor target for ok_sub_image
+struct NullBin(u64);
+impl Dimensions for NullBin {
+    fn bounding_box(&self) -> Rectangle {
+        Rectangle::new(Point::zero(), Size::new(64, 64))
+    }
+}
+impl DrawTarget for NullBin {
+    type Color = embedded_graphics::pixelcolor::BinaryColor;
+    type Error = core::convert::Infallible;
+    fn draw_iter<I: IntoIterator<Item = Pixel<Self::Color>>>(&mut self, pixels: I) -> Result<(), Self::Error> {
+        for _ in pixels.into_iter().take(100_000) {
+            self.0 += 1;
+        }
+        Ok(())
+    }
 }
